@@ -249,7 +249,7 @@ static void w_op(const char *op, int depth)
         case 'e': h->cid = tickit_window_bind_event(W[i], TICKIT_WINDOW_ON_EXPOSE, 0, &on_wkey, h); break;
         case 'f': h->cid = tickit_window_bind_event(W[i], TICKIT_WINDOW_ON_FOCUS, 0, &on_wkey, h); break;
         case 'g': h->cid = tickit_window_bind_event(W[i], TICKIT_WINDOW_ON_GEOMCHANGE, 0, &on_wkey, h); break;
-        /* DESTROY handlers that make calls are not modelled: such cases are judged by the discipline on the trace only */
+        /* DESTROY handlers that make calls: in the model's variant fixedh (LifeDefs.v), outside the theorems */
         case 'd': h->cid = tickit_window_bind_event(W[i], TICKIT_WINDOW_ON_DESTROY, 0, &on_wdestroy_calls, h); break;
         default: printf("ERR handler-kind %s\n", op); fflush(stdout); _exit(0);
       }
